@@ -10,6 +10,7 @@ import (
 
 	"verif/mc/engine"
 	"verif/mc/fixture"
+	"verif/mc/model"
 	"verif/mc/pkgread"
 )
 
@@ -47,7 +48,10 @@ var scriptSlots = map[string][]scriptSlot{
 	},
 }
 
-var scriptClasses = []string{"normal", "nonl", "crlf", "high", "shared", "empty", "nul"}
+var scriptClasses = []string{"normal", "nonl", "crlf", "high", "shared", "empty", "nul", "braces"}
+
+// scriptSizes: script lengths around the tar block size and buffer sizes (thorough tier).
+var scriptSizes = []int{1, 2, 511, 512, 513, 1023, 1024, 1025, 4095, 4096, 4097, 32768, 65535, 65536, 65537, 1 << 20}
 
 func scriptBytes(class, key string) []byte {
 	switch class {
@@ -69,6 +73,27 @@ func scriptBytes(class, key string) []byte {
 		return []byte{}
 	case "nul":
 		return []byte("#!/bin/sh\necho " + key + "\x00after-nul\n")
+	case "braces":
+		// text that looks like the end of a shell function, blank lines, trailing blank lines, a here-document
+		return []byte("#!/bin/sh\nf() {\n  echo " + key + "\n}\n\nf\n}\n\n\ncat <<EOT\n}\n\nEOT\n\n\n")
+	case "decoy":
+		return []byte("#!/bin/sh\necho DECOY for " + key + " - must only be seen where the base value survives\n")
+	}
+	if strings.HasPrefix(class, "size:") {
+		n := 0
+		fmt.Sscanf(class, "size:%d", &n)
+		b := []byte("#" + key + "\n")
+		if len(b) > n {
+			b = b[:n]
+		}
+		for i := 0; len(b) < n; i++ {
+			c := byte('a' + i%26)
+			if i%64 == 63 {
+				c = '\n'
+			}
+			b = append(b, c)
+		}
+		return b
 	}
 	panic(class)
 }
@@ -79,6 +104,9 @@ func scriptBytes(class, key string) []byte {
 func scriptPath(t *fixture.Tree, class, key string) string {
 	if class == "shared" {
 		return filepath.Join(t.Root, "scripts", "shared.sh")
+	}
+	if class == "decoy" {
+		return filepath.Join(t.Root, "scripts", "decoy_"+strings.ReplaceAll(key, ".", "_")+".sh")
 	}
 	return filepath.Join(t.Root, "scripts", strings.ReplaceAll(key, ".", "_")+".sh")
 }
@@ -105,6 +133,15 @@ type C09Case struct {
 	Class  string `json:"class"`
 	Prime  string `json:"prime,omitempty"`
 	Umask  int    `json:"umask,omitempty"` // top-level umask setting (0 = unset)
+	// Where the scripts are configured: "" = base settings; "override" = only in overrides.<format>;
+	// "both" = every slot has a decoy in the base settings and the subset is configured in overrides.<format>
+	// (slots outside the subset must then carry the decoy); "other" = base settings, with decoys in the
+	// override blocks of all other formats (which must not show).
+	Where string `json:"where,omitempty"`
+	// Company: the package also carries contents, conffiles, a changelog and triggers (other control members).
+	Company bool `json:"company,omitempty"`
+	// Rel: script paths are given relative to the working directory.
+	Rel bool `json:"rel,omitempty"`
 }
 
 func setPath(d map[string]any, key string, v any) {
@@ -125,13 +162,17 @@ func init() {
 	engine.Register(&engine.Prop{
 		ID:    "C09",
 		Level: "model_checking",
-		Rule: "every subset of the configurable script slots of every format (deb 2^7, rpm 2^7, apk 2^6, archlinux 2^6, ipk 2^4) x script byte classes (normal, no trailing newline, CRLF, bytes 0x80-0xff, one file shared by all slots; thorough adds empty and NUL-containing), each slot carrying distinct bytes naming itself; plus every non-empty subset again after a priming build of the same configuration whose script files (same paths) held other bytes; " +
-			"built for real and the slot contents decoded from control members / rpm scriptlet tags / .INSTALL; non-trivial = non-empty subset; distinct = distinct (format, populated slot set, class)",
+		Rule: "every subset of the configurable script slots of every format (deb 2^7, rpm 2^7, apk 2^6, archlinux 2^6, ipk 2^4) x script byte classes (normal, no trailing newline, CRLF, bytes 0x80-0xff, one file shared by all slots; thorough adds empty, NUL-containing and brace/blank-line/here-document text), each slot carrying distinct bytes naming itself; " +
+			"history: the same configuration built first with other bytes in the same script files (quick: one priming class; thorough: every ordered pair of 6 classes x every non-empty subset); " +
+			"placement: slots configured in the base settings, only in overrides.<format>, in overrides.<format> over base decoys (unset slots must keep the base script), or next to decoys in every other format's override block and own script block (quick: full slot set; thorough: every subset x 2 classes); " +
+			"company: with contents, conffiles, changelog, triggers and extra fields in the control data; umask settings; script paths relative to the working directory; thorough: script lengths 1..1 MiB around block and buffer sizes for each slot alone, each pair and all slots; " +
+			"built for real and the slot contents decoded from control members / rpm scriptlet tags / .INSTALL; non-trivial = non-empty subset; distinct = distinct (format, populated slot set, class, history, placement)",
 		Assumptions: []string{"rpm scriptlets containing NUL are excluded: rpm header strings are NUL-terminated by format", "for rpm an empty script file and an absent scriptlet tag are the same (a scriptlet is a header string)"},
 		Setup:       setupScripts,
 		Decode:      decodeInto[C09Case],
 		Bounds: func(env *engine.Env) map[string]any {
-			b := map[string]any{"classes_quick": scriptClasses[:5], "classes_thorough": scriptClasses}
+			b := map[string]any{"classes_quick": scriptClasses[:5], "classes_thorough": scriptClasses, "placements": []string{"base", "override", "both", "other"},
+				"script_sizes_thorough": scriptSizes, "history_classes_thorough": 6, "umasks": []string{"002", "022", "027", "077", "777"}}
 			for f, s := range scriptSlots {
 				b["slots_"+f] = len(s)
 			}
@@ -161,17 +202,99 @@ func init() {
 					}
 					if class == "normal" {
 						// script members keep their modes whatever umask is configured for the contents
-						full := uint(1)<<uint(n) - 1
 						for _, um := range []int{0o002, 0o022, 0o027, 0o077, 0o777} {
-							if !yield(C09Case{Format: f, Subset: full, Class: class, Umask: um}) {
+							if !yield(C09Case{Format: f, Subset: full(n), Class: class, Umask: um}) {
 								return
 							}
 						}
 					}
-					if class == "normal" || class == "nonl" {
+					if (class == "normal" || class == "nonl") && !env.Thorough() {
 						// the same slots, after a build of the same configuration with other script contents
 						for _, s := range subs[1:] {
 							if !yield(C09Case{Format: f, Subset: s, Class: class, Prime: "crlf"}) {
+								return
+							}
+						}
+					}
+					if class == "normal" && !env.Thorough() {
+						// quick: the full slot set configured through the override block / shadowing base decoys / next to other formats' decoys
+						for _, w := range []string{"override", "both", "other"} {
+							if !yield(C09Case{Format: f, Subset: full(n), Class: class, Where: w}) {
+								return
+							}
+						}
+						if !yield(C09Case{Format: f, Subset: full(n), Class: class, Company: true}) {
+							return
+						}
+					}
+				}
+			}
+			if !env.Thorough() {
+				return
+			}
+			// thorough: the further dimensions, each over every slot subset of every format
+			for _, f := range Formats {
+				n := len(scriptSlots[f])
+				var subs []uint
+				for s := uint(1); s < 1<<n; s++ {
+					subs = append(subs, s)
+				}
+				sort.SliceStable(subs, func(i, j int) bool { return popcount(subs[i]) < popcount(subs[j]) })
+				// (a) every ordered pair (priming bytes, final bytes) of the rewrite-between-builds history
+				hist := []string{"normal", "nonl", "crlf", "high", "empty", "braces"}
+				for _, prime := range hist {
+					for _, class := range hist {
+						if prime == class {
+							continue
+						}
+						for _, s := range subs {
+							if !yield(C09Case{Format: f, Subset: s, Class: class, Prime: prime}) {
+								return
+							}
+						}
+					}
+				}
+				// (b) where the scripts are configured
+				for _, w := range []string{"override", "both", "other"} {
+					for _, class := range []string{"normal", "nonl"} {
+						for _, s := range append([]uint{0}, subs...) {
+							if !yield(C09Case{Format: f, Subset: s, Class: class, Where: w}) {
+								return
+							}
+						}
+					}
+				}
+				// (c) umask x every subset; company x every subset; relative script paths x every subset
+				for _, s := range subs {
+					for _, um := range []int{0o002, 0o027, 0o077, 0o777} {
+						if !yield(C09Case{Format: f, Subset: s, Class: "normal", Umask: um}) {
+							return
+						}
+					}
+					for _, class := range []string{"normal", "nonl", "empty"} {
+						if class == "empty" && popcount(s) > 2 {
+							continue
+						}
+						if !yield(C09Case{Format: f, Subset: s, Class: class, Company: true}) {
+							return
+						}
+					}
+					if !yield(C09Case{Format: f, Subset: s, Class: "normal", Rel: true}) {
+						return
+					}
+					if !yield(C09Case{Format: f, Subset: s, Class: "normal", Rel: true, Where: "override", Company: true}) {
+						return
+					}
+				}
+				// (d) script lengths around block and buffer sizes: each slot alone, every pair of slots, and all slots
+				for _, sz := range scriptSizes {
+					class := fmt.Sprintf("size:%d", sz)
+					for _, s := range subs {
+						if popcount(s) <= 2 || s == full(n) {
+							if sz == 1<<20 && popcount(s) == 2 {
+								continue
+							}
+							if !yield(C09Case{Format: f, Subset: s, Class: class}) {
 								return
 							}
 						}
@@ -182,6 +305,8 @@ func init() {
 		Check: checkC09,
 	})
 }
+
+func full(n int) uint { return uint(1)<<uint(n) - 1 }
 
 func popcount(x uint) int {
 	n := 0
@@ -198,21 +323,88 @@ func checkC09(env *engine.Env, ci any) engine.Outcome {
 	slots := scriptSlots[c.Format]
 	d := map[string]any(Setting{Name: "default"}.doc(nil, t.Root))
 	delete(d, "contents")
+	if c.Company {
+		d["contents"] = fixture.ContentsYAML(specs([]model.Entry{
+			{Src: "etc/app.conf", Dst: "/etc/app.conf", Type: "config"},
+			{Src: "bin/app", Dst: "/usr/bin/app"},
+			{Src: "etc/app.conf", Dst: "/etc/nr.conf", Type: "config|noreplace"},
+			{Dst: "/var/lib/app", Type: "dir"},
+		}), t.Root)
+		d["changelog"] = filepath.Join(t.Root, "changelog.yaml")
+		setPath(d, "deb.triggers", map[string]any{"interest": []string{"trig-a"}, "activate_noawait": []string{"trig-b"}})
+		setPath(d, "deb.fields", map[string]any{"Bugs": "https://example.com/bugs"})
+		setPath(d, "ipk.fields", map[string]any{"Bugs": "https://example.com/bugs"})
+		d["depends"] = []string{"libc"}
+	}
 	if c.Umask != 0 {
 		d["umask"] = c.Umask
+	}
+	pathOf := func(class, key string) string {
+		p := scriptPath(t, class, key)
+		if c.Rel {
+			if r, err := filepath.Rel(t.Root, p); err == nil {
+				return r
+			}
+		}
+		return p
 	}
 	want := map[string][]byte{}
 	var names []string
 	for i, s := range slots {
-		if c.Subset&(1<<uint(i)) == 0 {
+		in := c.Subset&(1<<uint(i)) != 0
+		if c.Where == "both" {
+			setPath(d, s.Key, pathOf("decoy", s.Key))
+			want[s.Target] = scriptBytes("decoy", s.Key)
+		}
+		if !in {
 			continue
 		}
-		setPath(d, s.Key, scriptPath(t, c.Class, s.Key))
+		key := s.Key
+		if c.Where == "override" || c.Where == "both" {
+			key = "overrides." + c.Format + "." + s.Key
+		}
+		setPath(d, key, pathOf(c.Class, s.Key))
 		want[s.Target] = scriptBytes(c.Class, s.Key)
 		names = append(names, s.Target)
 	}
-	out.Nontrivial = len(want) > 0
-	out.Key = fmt.Sprintf("%s:%s:%s:%o:%s", c.Format, c.Class, c.Prime, c.Umask, strings.Join(names, ","))
+	if c.Where == "other" {
+		mine := map[string]bool{}
+		for _, s := range slots {
+			mine[s.Key] = true
+		}
+		for _, o := range Formats {
+			if o == c.Format {
+				continue
+			}
+			for _, s := range scriptSlots[o] {
+				setPath(d, "overrides."+o+"."+s.Key, pathOf("decoy", s.Key))
+				if !mine[s.Key] {
+					setPath(d, s.Key, pathOf("decoy", s.Key)) // another format's own script block in the base settings
+				}
+			}
+		}
+	}
+	out.Nontrivial = len(names) > 0
+	out.Key = fmt.Sprintf("%s:%s:%s:%o:%s:%v:%v:%s", c.Format, c.Class, c.Prime, c.Umask, c.Where, c.Company, c.Rel, strings.Join(names, ","))
+	if c.Rel {
+		cwd, err := os.Getwd()
+		if err == nil {
+			err = os.Chdir(t.Root)
+		}
+		if err != nil {
+			out.HarnessError = err.Error()
+			return out
+		}
+		defer os.Chdir(cwd)
+	}
+	if c.Where != "" {
+		for _, f := range Formats {
+			if err := writeScripts(t, f, "decoy"); err != nil {
+				out.HarnessError = err.Error()
+				return out
+			}
+		}
+	}
 	if c.Prime != "" {
 		if err := writeScripts(t, c.Format, c.Prime); err != nil {
 			out.HarnessError = err.Error()
@@ -227,7 +419,7 @@ func checkC09(env *engine.Env, ci any) engine.Outcome {
 	}
 	viol := func(sig, format string, a ...any) {
 		out.Violations = append(out.Violations, engine.Violation{Sig: sig,
-			Detail: fmt.Sprintf("format=%s class=%s primed-with=%q umask=%#o configured slots=%v\n", c.Format, c.Class, c.Prime, c.Umask, names) + fmt.Sprintf(format, a...)})
+			Detail: fmt.Sprintf("format=%s class=%s primed-with=%q umask=%#o where=%q company=%v relative-paths=%v configured slots=%v\n", c.Format, c.Class, c.Prime, c.Umask, c.Where, c.Company, c.Rel, names) + fmt.Sprintf(format, a...)})
 	}
 	data, err := buildYAML(fixture.Doc(d).YAML(), c.Format)
 	if err != nil {
@@ -247,6 +439,10 @@ func checkC09(env *engine.Env, ci any) engine.Outcome {
 	for _, s := range slots {
 		got, has := pkg.Scripts[s.Target]
 		w, configured := want[s.Target]
+		if c.Where == "both" && configured && bytes.Equal(w, scriptBytes("decoy", s.Key)) && has && !bytes.Equal(got, w) {
+			viol("scripts:override-merge:"+c.Format+":"+s.Target, "slot %s is configured in the base settings only (the override block leaves it unset) but does not carry the base script: %q…", s.Target, trunc(string(got), 60))
+			continue
+		}
 		if c.Format == "rpm" && configured && len(w) == 0 && !has {
 			// an rpm scriptlet is a header string: an empty script and no script are the same thing to rpm
 			continue
